@@ -13,7 +13,7 @@ from .. import gamedata, gen, lang
 from ..diagnose import crosstalk_sites
 from ..rng import Chooser
 from .common import (ModelGap, Obs, Violation, World, base_result, blueprint_probes,
-                     compile_case, fmt_sigs, merge_fired, net_signature, probe, settle_bound,
+                     compile_case, fmt_sigs, input_inits, bind_input_aliases, merge_fired, net_signature, probe, settle_bound,
                      skeleton)
 
 PROP = "C03"
@@ -227,8 +227,8 @@ def run_case(case: dict) -> dict:
         interp = lang.Interp(stmts)
         cells = case["cells"]
         _deps, cell_data, _cell_en = _support(stmts)
-        vals = {i["name"]: i["init"] for i in case["inputs"]}
-        missing = [i["name"] for i in case["inputs"] if i["name"] not in obs.inputs]
+        vals = input_inits(case)
+        missing = bind_input_aliases(obs, case)
         if missing:
             probe(res, "input_without_combinator", len(missing))
         bound = settle_bound(w) + 2 * len(cells)
